@@ -153,7 +153,8 @@ def run_case(ns, ctx, case):
     def unassign(mid, name, value):
         node = model[mid]
         if name in node.reg:
-            node.touched.add(name)
+            # (removing a registration is unambiguous - unlike re-assigning a live one, it does not relax the order comparison: a name that is
+            #  registered again later is a new registration and comes last)
             features.add("reassign-to-plain")
             del node.reg[name]
         setattr(mods[mid], name, value)
